@@ -97,8 +97,21 @@ func (eng *Engine) lemmaFormula(g *VCGen, l *Lemma, args []SpecVal) string {
 func (eng *Engine) lemmaFacts(g *VCGen, pkg string, only map[string]bool) []string {
 	var out []string
 	used := eng.curSpecInfo(g)
+	visible := map[string]bool{"": true, pkg: true}
+	if tp := eng.typesPkg(pkg); tp != nil {
+		var walk func(p *types.Package)
+		walk = func(p *types.Package) {
+			for _, imp := range p.Imports() {
+				if !visible[imp.Path()] {
+					visible[imp.Path()] = true
+					walk(imp)
+				}
+			}
+		}
+		walk(tp)
+	}
 	for _, l := range eng.contracts.Lemmas {
-		if l.Pkg != "" && l.Pkg != pkg {
+		if !visible[l.Pkg] {
 			continue
 		}
 		if only != nil && !only[l.Name] {
